@@ -9,8 +9,11 @@ import (
 	"os/exec"
 	"strings"
 	"testing"
+	"time"
 
 	"exoverif/sim"
+
+	epochstypes "github.com/ExocoreNetwork/exocore/x/epochs/types"
 
 	"pgregory.net/rapid"
 )
@@ -100,11 +103,32 @@ func TestC08Child(t *testing.T) {
 	fmt.Printf("TRANSCRIPT %s %s\n", transcriptHash(c.Blocks), shortHash(sim.OracleMemDumpNoNonce()))
 }
 
+// c08Config / c08Weights: the determinism check additionally covers AVS traffic (task
+// statistics are computed from a Go map in the epoch hook), raw precompile calls, downtime
+// through x/slashing and MsgUnjail.
+func c08Config(t *rapid.T) sim.Config {
+	cfg := determinismConfig(t)
+	cfg.NumAVS = uniform(t, 3, "nAVSD")
+	cfg.ExtraEpochs = []epochstypes.EpochInfo{epochstypes.NewGenesisEpochInfo("fast", 20*time.Second)}
+	if uniform(t, 2, "slashingD") == 0 {
+		cfg.Slashing = &sim.SlashingCfg{Window: int64(2 + uniform(t, 5, "windowD")), MinSigned: "0.5", JailSeconds: 30, FractionDowntime: "0.01"}
+	}
+	return cfg
+}
+
+func c08Weights() map[string]int {
+	w := determinismWeights()
+	for k, v := range map[string]int{"avsRegister": 3, "avsOptIn": 4, "avsBLS": 3, "avsTask": 4, "avsResult": 8, "avsChallenge": 2, "avsUpdate": 1, "rawCall": 3, "msgUnjail": 2} {
+		w[k] = v
+	}
+	return w
+}
+
 func init() {
 	base := WorldProp{ID: "C08", Name: "C08"}
 	base.Invariants = func() []Invariant { return nil }
-	base.Config = determinismConfig
-	base.Gen = GenOpts{Weights: determinismWeights(), HostilePct: 6, ExtremePct: 0, Anchor: true, Tempos: []int{4, 15, 40}, CapBits: 40, ClampBits: 40}
+	base.Config = c08Config
+	base.Gen = GenOpts{Weights: c08Weights(), HostilePct: 6, ExtremePct: 0, Anchor: true, Tempos: []int{4, 15, 40}, CapBits: 40, ClampBits: 40, DowntimePct: 10}
 	base.MinSteps, base.MaxSteps = 40, 120
 	base.Tail = func(m *Machine) []Action {
 		return []Action{{Kind: "nextBlock", Dt: 61}, {Kind: "nextBlock", Dt: 3}, {Kind: "nextBlock", Dt: 61}, {Kind: "nextBlock", Dt: 3}}
